@@ -746,3 +746,28 @@ PROPS["C17"]["trusted_base"] = PROPS["C17"]["trusted_base"] + CORE_TRUSTED
 
 # properties not claimed, with the reason (kept current)
 NOT_APPLICABLE = {}
+
+
+# ---- the technique and the trust note of the properties whose anchored code is (also) translated ----
+_TRANSLATED = {
+    "C01": "Inner::write_to_stream (C01_write_source_is_model, C01_write_source_conserves)",
+    "C02": "Channel0Handle::new and ChannelHandle::send_content (C02_limit_source_is_model, C02_send_content_source_is_model, C02_send_content_source_frames)",
+    "C03": "the content collector (C03_source_is_model, C03_source_sequence)",
+    "C04": "IoLoopHandle's call path (C04_call_source_is_model)",
+    "C05": "IoLoopHandle's call path (C05_call_source_is_model)",
+    "C06": "the frame buffer's Inner::read_from (C06_read_from_source_is_model)",
+    "C08": "SealableOutputBuffer's seal rule and Inner::write_to_stream (C08_seal_source_is_model, C08_write_source_is_model, C08_write_source_conserves)",
+    "C09": "IoLoopHandle's call path (C09_call_source_is_model)",
+    "C10": "ChannelSlots::{insert, insert_unused_channel_id, remove} (C10_*_source_is_model, C10_run_source_is_model)",
+    "C14": "the confirm smoother (C14_process / next / drop_source_is_model, C14_run_all_source_is_model)",
+    "C15": "ConnectionOptions::make_tune_ok and Channel0Handle::new (C15_source_is_model, C15_limit_source_is_model)",
+    "C16": "HandshakeState::process (C16_process_source_is_model)",
+    "C17": "Heartbeat::fire (C17_fire_source_is_model)",
+}
+for _p, _what in _TRANSLATED.items():
+    PROPS[_p]["technique"] = ("Coq proof over a model of which the anchored functions are REGENERATED from the source text "
+        "on every run by a translator (tools/rs2v.py, tools/rs2sm.py) and proved equal to the hand-written model - "
+        + _what + " - plus an executable correspondence of the whole model against the real code (vm_compute)")
+    PROPS[_p]["level_note"] = ("Trusted: Coq 8.16.1 kernel; the translators (the meaning they give to their Rust subsets, stated in "
+        "the files) and what the 'source is model' theorems assume of the functions left external; for the rest of the "
+        "model the correspondence check (generator-bounded); see evidence trusted_base.")
